@@ -7,7 +7,7 @@ from concurrent.futures import ThreadPoolExecutor
 PROPS = [c["property_id"] for c in json.load(open("/verif/MANIFEST.json"))["checks"]]
 ENV = dict(os.environ, GOFLAGS="-mod=mod", GOPROXY="off", GOSUMDB="off", GOTOOLCHAIN="local")
 def run_prop(p):
-    r = subprocess.run(["/verif/bin/s2lint", "-prop", p, "-tier", "quick"], capture_output=True, text=True)
+    r = subprocess.run([os.environ.get("S2LINT", "/verif/bin/s2lint"), "-prop", p, "-tier", "quick"], capture_output=True, text=True)
     return p, r.returncode, re.findall(r"^FAIL (\S+)", r.stdout, re.M)
 bad = 0
 for d in sorted(glob.glob("/verif/refactors/*.diff")):
